@@ -475,6 +475,401 @@ def check_iter(chk, F):
     chk.floor("R13.2", "accepted cases (non-vacuous)", accepted, 250)
 
 
+# ---- R13.4 from_txdata ------------------------------------------------------------------------------------------
+
+class PyScript(object):
+    """a bitcoin::Script value: kind in p2pk p2pkh p2wpkh p2wsh p2tr p2sh ms"""
+    __slots__ = ("kind", "data")
+
+    def __init__(self, kind, data):
+        self.kind, self.data = kind, data
+
+    def key(self):
+        return (self.kind, repr(self.data))
+
+    def __eq__(self, o):
+        return isinstance(o, PyScript) and self.key() == o.key()
+
+    def __ne__(self, o):
+        return not self == o
+
+    def __hash__(self):
+        return hash(self.key())
+
+    def __repr__(self):
+        return "%s(%r)" % (self.kind, self.data)
+
+    def bytes(self):
+        return X.Tok("scriptbytes", repr(self), {"p2wpkh": 22, "p2wsh": 34, "p2pkh": 25, "p2sh": 23, "p2tr": 34,
+                                               "p2pk": 35}.get(self.kind, 40))
+
+
+def h160(x):
+    return ("hash", "HASH160", x)
+
+
+def sha(x):
+    return ("hash", "SHA256", x)
+
+
+def ms_script(text, ctx):
+    """the encoded script of a miniscript, as a witness / scriptSig element"""
+    return X.Tok("script", text, 40, True, ctx)
+
+
+class TxHarness(object):
+    def __init__(self, F):
+        self.F = F
+        m = Machine(F, strict=True, max_depth=60)
+        self.m = m
+        self.fn = F.fn("from_txdata", file="interpreter/inner.rs")
+        m.tok_index = _tok_index
+        h = m.hooks
+        from ..builtins import deref
+
+        def is_kind(kind):
+            return lambda m_, a, c: deref(a[0]).kind == kind
+        for k in ("p2pk", "p2pkh", "p2wpkh", "p2wsh", "p2tr", "p2sh"):
+            h["bitcoin::Script::is_" + k] = is_kind(k)
+        h["<bitcoin::Script as std::ops::Index<std::ops::Range<usize>>>::index"] = _script_index
+        h["<bitcoin::Script as std::ops::Index<std::ops::RangeFrom<usize>>>::index"] = _script_index
+        h["bitcoin::Script::instructions_minimal"] = lambda m_, a, c: _instr_iter(deref(a[0]))
+        h["bitcoin::Witness::iter"] = lambda m_, a, c: _wit_iter(deref(a[0]))
+        h["bitcoin::Script::len"] = lambda m_, a, c: deref(a[0]).bytes().length
+        h["bitcoin::Script::to_owned"] = lambda m_, a, c: deref(a[0])
+        h["bitcoin::Script::as_bytes"] = lambda m_, a, c: _as_bytes(deref(a[0]))
+        h["bitcoin::ScriptBuf::as_bytes"] = lambda m_, a, c: _as_bytes(deref(a[0]))
+        h["bitcoin::script::PushBytes::as_bytes"] = lambda m_, a, c: deref(a[0])
+        h["bitcoin::Script::from_bytes"] = lambda m_, a, c: deref(a[0])
+        h["bitcoin::ScriptBuf::new_p2pkh"] = lambda m_, a, c: PyScript("p2pkh", deref(a[0]))
+        h["bitcoin::ScriptBuf::new_p2wpkh"] = lambda m_, a, c: PyScript("p2wpkh", deref(a[0]))
+        h["bitcoin::ScriptBuf::new_p2wsh"] = lambda m_, a, c: PyScript("p2wsh", deref(a[0]))
+        h["bitcoin::ScriptBuf::new_p2sh"] = lambda m_, a, c: PyScript("p2sh", deref(a[0]))
+
+        def key_from_slice(m_, a, c):
+            v = deref(a[0])
+            if isinstance(v, X.Tok) and v.kind == "key" and v.extra in ("ecdsa", "ecdsa-uncompressed"):
+                return ok(Adt("bitcoin::PublicKey", "PublicKey", {"compressed": v.extra == "ecdsa", "inner": v}))
+            return err(Term("KeyParseError"))
+        h["bitcoin::PublicKey::from_slice"] = key_from_slice
+
+        def xonly_from_slice(m_, a, c):
+            v = deref(a[0])
+            if isinstance(v, X.Tok) and v.kind == "key" and v.extra == "schnorr":
+                return ok(v)
+            return err(Term("KeyParseError"))
+        h["bitcoin::XOnlyPublicKey::from_slice"] = xonly_from_slice
+        h["bitcoin::secp256k1::XOnlyPublicKey::from_slice"] = xonly_from_slice
+        for mod, alg in (("sha256", "SHA256"), ("hash160", "HASH160")):
+            h["bitcoin::hashes::%s::Hash::hash" % mod] = (lambda alg_: lambda m_, a, c: ("hash", alg_, deref(a[0])))(alg)
+        h["bitcoin::bitcoin_hashes::Hash::hash"] = Harness._generic_hash
+        h["bitcoin::hashes::Hash::hash"] = Harness._generic_hash
+        tph = [p for p in F.fns if p.endswith("::to_pubkeyhash")]
+        for p in tph:
+            h[p] = lambda m_, a, c: h160(_keytok(deref(a[0])))
+        h["ToPublicKey::to_pubkeyhash"] = lambda m_, a, c: h160(_keytok(deref(a[0])))
+
+        def decode_consensus(m_, a, c):
+            v = deref(a[0])
+            st = " ".join([c.get("self_ty") or ""] + (c.get("targs") or []))
+            want = "tap" if "Tap" in st else ("legacy" if "Legacy" in st else ("bare" if "BareCtx" in st else "segwitv0"))
+            if isinstance(v, X.Tok) and v.kind == "script":
+                return ok(Adt(MS, "Miniscript", {"node": Term("parsed", v.name, want), "ty": Term("ty"), "ext": Term("ext"),
+                                                "phantom": (), "src": v}))
+            if isinstance(v, PyScript) and v.kind == "ms":
+                return ok(Adt(MS, "Miniscript", {"node": Term("parsed", v.data.name, want), "ty": Term("ty"),
+                                                "ext": Term("ext"), "phantom": (), "src": v.data}))
+            return err(Term("DecodeError"))
+        for p in F.fns:
+            if p.endswith("::decode_consensus"):
+                h[p] = decode_consensus
+        for p in F.fns:
+            if p.endswith("::encode") and "Miniscript" in p:
+                h[p] = lambda m_, a, c: PyScript("ms", deref(a[0]).fields.get("src", Term("enc", deref(a[0]))))
+        for p in F.fns:
+            if p.endswith("::to_no_checks_ms"):
+                h[p] = lambda m_, a, c: deref(a[0])
+        h["bitcoin::taproot::ControlBlock::decode"] = \
+            lambda m_, a, c: ok(deref(a[0])) if isinstance(deref(a[0]), X.Tok) and deref(a[0]).kind == "cb" \
+            else err(Term("CbError"))
+        h["bitcoin::secp256k1::Secp256k1::<bitcoin::secp256k1::VerifyOnly>::verification_only"] = lambda m_, a, c: Term("secp")
+        h["bitcoin::secp256k1::context::alloc_only::<impl bitcoin::secp256k1::Secp256k1<bitcoin::secp256k1::VerifyOnly>>::verification_only"] = lambda m_, a, c: Term("secp")
+
+        def verify_commitment(m_, a, c):
+            cb, key_, scr = deref(a[0]), deref(a[2]), deref(a[3])
+            sname = scr.data.name if isinstance(scr, PyScript) and isinstance(scr.data, X.Tok) else repr(scr)
+            return cb.name == (key_.name, sname)
+        h["bitcoin::taproot::ControlBlock::verify_taproot_commitment"] = verify_commitment
+
+    def run(self, spk, ssig, wit):
+        r = self.m.call_path(self.fn, [spk, PyVec(list(ssig)), PyVec(list(wit))])
+        return r
+
+
+def _keytok(v):
+    if isinstance(v, Adt) and "inner" in v.fields:
+        return v.fields["inner"]
+    if isinstance(v, Adt) and "0" in v.fields:
+        return _keytok(v.fields["0"])
+    return v
+
+
+INSTR = "bitcoin::script::Instruction"
+
+
+def _instr_iter(v):
+    from ..interp import PyIter
+    out = []
+    for e in v.items:
+        if e == "OP_1":
+            out.append(ok(Adt(INSTR, "Op", {"0": Adt("bitcoin::Opcode", "Opcode", {"code": 0x51})})))
+        elif e == "OP_DUP":
+            out.append(ok(Adt(INSTR, "Op", {"0": Adt("bitcoin::Opcode", "Opcode", {"code": 0x76})})))
+        elif e == "NONMINIMAL":
+            out.append(err(Term("NonMinimalPush")))
+        elif isinstance(e, int) and e in (0, 1):
+            out.append(ok(Adt(INSTR, "PushBytes", {"0": PyVec([]) if e == 0 else PyVec([1])})))
+        else:
+            out.append(ok(Adt(INSTR, "PushBytes", {"0": e})))
+    return PyIter(out)
+
+
+def _wit_iter(v):
+    from ..interp import PyIter
+    return PyIter(list(v.items))
+
+
+def _as_bytes(v):
+    if isinstance(v, PyScript) and v.kind == "slice":
+        inner, lo, hi = v.data
+        n = inner.bytes().length
+        if inner.kind == "p2pk" and lo == 1 and hi == n - 1:
+            return inner.data           # the pushed key
+        if inner.kind == "p2tr" and lo == 2 and hi in (None, n):
+            return inner.data           # the output key
+        return X.Tok("junk", "slice:%r" % (v.data,), (hi if hi is not None else n) - lo)
+    if isinstance(v, PyScript):
+        return v.bytes() if v.kind != "ms" else v.data
+    return v
+
+
+def _script_index(m_, a, c):
+    from ..builtins import deref
+    spk, r = deref(a[0]), deref(a[1])
+    return PyScript("slice", (spk, r.fields.get("start", 0), r.fields.get("end")))
+
+
+def _tok_index(v, i):
+    if isinstance(v.extra, tuple) and isinstance(i, int) and i < len(v.extra):
+        return v.extra[i]
+    if i == 0:
+        return {"sig": 0x30, "key": 0x02, "cb": 0xc0, "annex": 0x50, "junk": 0x6a, "pre": 0x11, "zeros": 0,
+                "script": 0x21, "scriptbytes": 0x76}.get(v.kind, 0x7f)
+    raise Unsupported("byte %r of an opaque token" % (i,))
+
+
+def redeem(ps):
+    t = ps.bytes()
+    if ps.kind == "p2wpkh":
+        return X.Tok("scriptbytes", t.name, 22, True, (0, 20))
+    if ps.kind == "p2wsh":
+        return X.Tok("scriptbytes", t.name, 34, True, (0, 32))
+    return t
+
+
+def _patch_pyscript_bytes():
+    def b(self):
+        base = X.Tok("scriptbytes", repr(self), {"p2wpkh": 22, "p2wsh": 34, "p2pkh": 25, "p2sh": 23, "p2tr": 34,
+                                              "p2pk": 35}.get(self.kind, 40))
+        if self.kind == "p2wpkh":
+            return X.Tok("scriptbytes", base.name, 22, True, (0, 20))
+        if self.kind == "p2wsh":
+            return X.Tok("scriptbytes", base.name, 34, True, (0, 32))
+        return base
+    PyScript.bytes = b
+
+
+_patch_pyscript_bytes()
+
+KA = X.key("A", "ecdsa")
+KB = X.key("B", "ecdsa")
+KU = X.Tok("key", "U", 65, True, "ecdsa-uncompressed")
+XK = X.key("T", "schnorr")
+SA = ms_script("pk(A)", "any")
+SB = ms_script("pk(B)", "any")
+CB_GOOD = X.Tok("cb", ("T", "pk(A)"), 33)
+CB_BAD = X.Tok("cb", ("T", "pk(Z)"), 33)
+ANNEX = X.Tok("annex", "a", 10)
+SIG = X.sig("A")
+
+
+def txdata_cases():
+    """[(name, spk, ssig alphabet, witness alphabet)]"""
+    RW = PyScript("p2wpkh", h160(KA)).bytes()
+    RWB = PyScript("p2wpkh", h160(KB)).bytes()
+    RS = PyScript("p2wsh", sha(SA)).bytes()
+    common = [0, 1, SIG, X.JUNK]
+    return [
+        ("p2pk", PyScript("p2pk", KA), common + [KA], common + [KA]),
+        ("p2pkh", PyScript("p2pkh", h160(KA)), common + [KA, KB, KU], common + [KA]),
+        ("p2pkh-u", PyScript("p2pkh", h160(KU)), common + [KA, KU], common),
+        ("p2wpkh", PyScript("p2wpkh", h160(KA)), common + [KA], common + [KA, KB, KU]),
+        ("p2wpkh-u", PyScript("p2wpkh", h160(KU)), common, common + [KA, KU]),
+        ("p2wsh", PyScript("p2wsh", sha(SA)), common + [SA], common + [SA, SB, KA]),
+        ("p2sh-wpkh", PyScript("p2sh", h160(RW)), common + [RW, RWB, KA], common + [KA, KB, KU]),
+        ("p2sh-wsh", PyScript("p2sh", h160(RS)), common + [RS, SA], common + [SA, SB]),
+        ("p2sh", PyScript("p2sh", h160(SA)), common + [SA, SB, RW], common + [SA]),
+        ("p2tr", PyScript("p2tr", XK), common + [SA], common + [SA, SB, CB_GOOD, CB_BAD, ANNEX]),
+        ("bare", PyScript("ms", SA), common + [KA], common + [SA]),
+        ("ssig-nonpush", PyScript("p2pkh", h160(KA)), [SIG, KA, "OP_DUP", "NONMINIMAL", "OP_1"], [0]),
+    ]
+
+
+def is_key(v, compressed_only=False):
+    return isinstance(v, X.Tok) and v.kind == "key" and (v.extra == "ecdsa" or (v.extra == "ecdsa-uncompressed"
+                                                                                 and not compressed_only))
+
+
+def is_script(v):
+    return isinstance(v, X.Tok) and v.kind == "script"
+
+
+def expected(spk, ssig, wit):
+    """BIP-16 / 141 / 143 / 341 as a function: -> None (invalid spend form) | (inner, kept stack, script code)"""
+    if any(e in ("OP_DUP", "NONMINIMAL") for e in ssig):
+        return None
+    ssig = [1 if e == "OP_1" else e for e in ssig]
+    k = spk.kind
+    if k == "p2pk":
+        return None if wit else (("Pk", spk.data), ssig, spk)
+    if k == "p2pkh":
+        if wit or not ssig or not is_key(ssig[-1]) or h160(ssig[-1]) != spk.data:
+            return None
+        return (("Pkh", ssig[-1]), ssig[:-1], spk)
+    if k == "p2wpkh":
+        if ssig or not wit or not is_key(wit[-1], True) or h160(wit[-1]) != spk.data:
+            return None
+        return (("Wpkh", wit[-1]), wit[:-1], PyScript("p2pkh", spk.data))
+    if k == "p2wsh":
+        if ssig or not wit or not is_script(wit[-1]) or sha(wit[-1]) != spk.data:
+            return None
+        return (("Wsh", wit[-1]), wit[:-1], PyScript("ms", wit[-1]))
+    if k == "p2sh":
+        if not ssig or not isinstance(ssig[-1], X.Tok) or h160(ssig[-1]) != spk.data:
+            return None
+        r = ssig[-1]
+        if r.kind == "scriptbytes" and r.extra == (0, 20):
+            if len(ssig) != 1 or not wit or not is_key(wit[-1], True):
+                return None
+            inner = PyScript("p2wpkh", h160(wit[-1]))
+            if inner.bytes() != r:
+                return None
+            return (("ShWpkh", wit[-1]), wit[:-1], PyScript("p2pkh", h160(wit[-1])))
+        if r.kind == "scriptbytes" and r.extra == (0, 32):
+            if len(ssig) != 1 or not wit or not is_script(wit[-1]):
+                return None
+            if PyScript("p2wsh", sha(wit[-1])).bytes() != r:
+                return None
+            return (("ShWsh", wit[-1]), wit[:-1], PyScript("ms", wit[-1]))
+        if not is_script(r) or wit:
+            return None
+        return (("Sh", r), ssig[:-1], PyScript("ms", r))
+    if k == "p2tr":
+        if ssig or not wit:
+            return None
+        if len(wit) >= 2 and isinstance(wit[-1], X.Tok) and wit[-1].kind == "annex":
+            return None
+        if len(wit) == 1:
+            return (("Tr", spk.data), wit, None)
+        cb, scr = wit[-1], wit[-2]
+        if not (isinstance(cb, X.Tok) and cb.kind == "cb") or not is_script(scr):
+            return None
+        if cb.name != (spk.data.name, scr.name):
+            return None
+        return (("TrScript", scr), wit[:-2], PyScript("ms", scr))
+    if k == "ms":
+        return None if wit else (("Bare", spk.data), ssig, spk)
+    return None
+
+
+def lib_summary(r):
+    """Result<(Inner, Stack, Option<ScriptBuf>)> -> comparable form"""
+    if r.variant != "Ok":
+        return None
+    inner, stack, code = r.fields["0"]
+    if inner.variant == "PublicKey":
+        who = (inner.fields["1"].variant, _keytok(inner.fields["0"]))
+    else:
+        st = inner.fields["1"].variant
+        who = ("TrScript" if st == "Tr" else st, inner.fields["0"].fields.get("src"))
+    elems = []
+    for e in stack.fields["0"].items:
+        elems.append(0 if e.variant == "Dissatisfied" else (1 if e.variant == "Satisfied" else e.fields["0"]))
+    c = code.fields["0"] if code.variant == "Some" else None
+    return (who, elems, c)
+
+
+def _tx_work(args):
+    from .. import facts
+    F = facts.load()
+    name, spk, sa, wa, maxlen = args
+    h = TxHarness(F)
+    from .. import builtins
+    recs = []
+    n = 0
+    try:
+        for ls in range(0, maxlen + 1):
+            for ssig in itertools.product(sa, repeat=ls):
+                for lw in range(0, maxlen + 1):
+                    for wit in itertools.product(wa, repeat=lw):
+                        n += 1
+                        wl = [PyVec([]) if e == 0 else (PyVec([1]) if e == 1 else e) for e in wit]
+                        r = h.run(spk, list(ssig), wl)
+                        got = lib_summary(r)
+                        want = expected(spk, list(ssig), list(wit))
+                        if got is None and want is None:
+                            continue
+                        if got is None or want is None or repr(got) != repr(want):
+                            recs.append((list(ssig), list(wit), repr(got), repr(want), repr(r)[:160]))
+    except Unsupported as e:
+        return (name, "unsupported", str(e), n, recs)
+    except Panic as e:
+        return (name, "panic", str(e), n, recs)
+    return (name, "done", "", n, recs)
+
+
+def check_txdata(chk, F):
+    R = "R13.4"
+    chk.rule(R, "from_txdata, evaluated on every (scriptSig, witness) combination up to length 2 over an alphabet of "
+                "right / wrong keys, redeem scripts, witness scripts, control blocks, annex, booleans and junk, for every "
+                "output type: success exactly for the standard spend forms of BIP-16/141/341, with the right kept stack, "
+                "inner kind and BIP-143 script code")
+    chk.saw(F.fn("from_txdata", file="interpreter/inner.rs"))
+    import multiprocessing as mp
+    maxlen = 2 if chk.tier == "quick" else 3
+    jobs = [(n, spk, sa, wa, maxlen) for (n, spk, sa, wa) in txdata_cases()]
+    with mp.Pool(min(16, len(jobs))) as pool:
+        results = pool.map(_tx_work, jobs, chunksize=1)
+    total = 0
+    for (name, status, msg, n, recs) in results:
+        total += n
+        if status == "unsupported":
+            chk.fail(R, "unanalysable:" + name, "unanalysable: %s" % msg, kind="unanalysable")
+            continue
+        if status == "panic":
+            chk.fail(R, "panic:" + name, "panic in from_txdata: %s" % msg, where="src/interpreter/inner.rs")
+            continue
+        if recs:
+            ss, ww, got, want, raw = recs[0]
+            chk.fail(R, name, "%d combination(s) differ from the standard; first: scriptSig=%r witness=%r library=%s "
+                              "standard=%s" % (len(recs), ss, ww, got, want), where="src/interpreter/inner.rs",
+                     detail=recs[:10])
+        else:
+            chk.ok(R)
+    chk.extra["R13.4_combinations"] = total
+    chk.floor(R, "combinations evaluated", total, 15000)
+
+
 def run(chk):
     F = chk.facts()
     chk.explanation = __doc__
@@ -483,3 +878,5 @@ def run(chk):
                    "rustc THIR as dumped by factgen; msverif THIR evaluator"]
     if not ONLY or "1" in ONLY:
         chk.guard("R13.2", "iter", check_iter, chk, F)
+    if not ONLY or "4" in ONLY:
+        chk.guard("R13.4", "from_txdata", check_txdata, chk, F)
